@@ -35,6 +35,7 @@ GhostInit(S) ==
    ackop |-> EmptyFn,    \* acknowledgement number -> opid
    ws |-> EmptyFn,       \* key -> sequence of [val, opid] : applied writes not yet superseded by a completed later one
    pend |-> EmptyFn,     \* key -> set of [val, opid] : writes that began and are not applied yet
+   rdDead |-> EmptyFn,   \* reading actor -> [key -> the values that were dead (see deadv) when the read began]
    rd |-> EmptyFn,       \* reading actor -> [key -> set of values it may return]
    e3 |-> EmptyFn,       \* key -> [mode, val, dl] : what a sequential client may rely on (C03)
    rd3 |-> EmptyFn,      \* reading actor -> [key -> [ok, val, dl]]
@@ -48,6 +49,7 @@ GhostInit(S) ==
    deadv |-> EmptyFn,    \* key -> values that an acknowledged delete has removed for good (C11: they were submitted before it)
    acc |-> EmptyFn,      \* key hash -> accesses delivered to the sketch in the current ageing window (system-level C14)
    accTotal |-> 0,       \* recorded accesses in the current window (TinyLFU::total_increments)
+   evw |-> EmptyFn,      \* evicting actor -> id of the store entry its key had when it removed the key id from key_weights
    desync |-> {},        \* actors whose model-inferred locals cannot be trusted until they start their next command / operation
    smp |-> {},           \* ids in the sample the code logged last (entries kept from it carry the estimate they were sampled with)
    adm |-> [id |-> 0, w |-> 0],   \* the put the worker is admitting (set at A_Space, from the command it actually received)
@@ -162,6 +164,7 @@ GhostBegin(G, S, a, op) ==
   ELSE IF IsReadOp(op)
   THEN LET ks == ReadKeys(op) IN
        [G EXCEPT !.rd = With(@, a, [k \in ks |-> MayReturn(G, k)]),
+                 !.rdDead = With(@, a, [k \in ks |-> Get(G.deadv, k, {})]),
                  !.obs = With(@, a, <<>>),
                  !.rd3 = With(@, a, [k \in ks |->
                             LET e == Get(G.e3, k, [mode |-> "none", val |-> NoVal, dl |-> NoExp, src |-> "none"])
@@ -227,6 +230,7 @@ GhostNext(G, S, a, site, inp, S2, o) ==
       \* reads end
       G8 == IF IsCaller(a) /\ o.next = "C_Idle" /\ IsReadOp(o.op)
             THEN [G7 EXCEPT !.rd = IF a \in DOMAIN @ THEN Without(@, a) ELSE @,
+                            !.rdDead = IF a \in DOMAIN @ THEN Without(@, a) ELSE @,
                             !.rd3 = IF a \in DOMAIN @ THEN Without(@, a) ELSE @,
                             !.obs = IF a \in DOMAIN @ THEN Without(@, a) ELSE @] ELSE G7
       \* D2: running sum (clamped at 0) of weight updates applied to charged ids
@@ -266,13 +270,19 @@ GhostNext(G, S, a, site, inp, S2, o) ==
       G12b == IF site = "R_Apply" /\ \E i \in DOMAIN o.ev : o.ev[i].e = "apply"
               THEN SketchFeed(G12, o.ev[CHOOSE i \in DOMAIN o.ev : o.ev[i].e = "apply"].f, S.cfg.counters)
               ELSE IF site = "C_ShutClearPolicy" THEN [G12 EXCEPT !.acc = EmptyFn, !.accTotal = 0] ELSE G12
+      \* the window of an eviction: between key_weights.remove(id) and the by-key removal of the store entry
+      G12c == IF site = "K_DelKw" /\ L.mode # "del"
+              THEN LET id == IF L.mode = "evict" THEN L.vic.id ELSE L.id
+                       key == IF id \in DOMAIN S.kw THEN S.kw[id].key ELSE -1
+                   IN [G12b EXCEPT !.evw = With(@, a, IF key \in DOMAIN S.store THEN S.store[key].id ELSE 0)]
+              ELSE G12b
       G13 == IF site = "K_DelUsed" /\ L.mode # "del" /\ Present(S, L.key)
                 /\ LET e == S.store[L.key] IN
-                     e.id # L.vic.id
+                     (e.id # L.vic.id /\ Get(G.evw, a, 0) = L.vic.id)
                      \/ (a = "sweeper" /\ (e.exp = NoExp \/ e.exp > L.t) /\ (UpsertInFlightOn(S, e.id) \/ e.id \in DOMAIN G.stale))
-             THEN [G12b EXCEPT !.taintK = With(@, L.key,
+             THEN [G12c EXCEPT !.taintK = With(@, L.key,
                         LET e == S.store[L.key] IN
-                        IF e.id # L.vic.id THEN "D11" ELSE IF UpsertInFlightOn(S, e.id) THEN "D12" ELSE G.stale[e.id])] ELSE G12b
+                        IF e.id # L.vic.id THEN "D11" ELSE IF UpsertInFlightOn(S, e.id) THEN "D12" ELSE G.stale[e.id])] ELSE G12c
   IN G13
 
 \* the lookup facts of reader a including the lookup made in the current C_Get step
@@ -314,12 +324,13 @@ J_C02(S, a, site, inp, S2, o, G, G2) ==
   ELSE LET allowed == G.rd[a]
            keys == IF o.op.op = "get" THEN <<o.op.k>> ELSE o.op.ks
            vals == IF o.op.op = "get" THEN <<o.ret.v>> ELSE o.ret.vs
-           bad == {i \in DOMAIN vals : i \in DOMAIN keys /\ vals[i] # NoVal /\ vals[i] \notin Get(allowed, keys[i], {})}
+           bad == {i \in DOMAIN vals : i \in DOMAIN keys /\ vals[i] # NoVal
+                                          /\ (vals[i] \notin Get(allowed, keys[i], {}) \/ vals[i] \in Get(Get(G.rdDead, a, EmptyFn), keys[i], {}))}
        IN IF bad = {} THEN <<>>
           ELSE LET i == CHOOSE x \in bad : TRUE
                    k == keys[i]
                    \* was the value ever written to this key and then hidden by a delete that returned?
-                   byDelete == vals[i] \in Get(G.delv, k, {})
+                   byDelete == vals[i] \in Get(G.delv, k, {}) \/ vals[i] \in Get(Get(G.rdDead, a, EmptyFn), k, {})
                IN <<V(IF byDelete THEN "C04" ELSE "C02", "violation", "",
                       "a read returned a value that is not current for the key (stale, deleted, foreign or never written)")>>
                   \o (IF byDelete THEN <<V("C02", "violation", "", "a read returned a deleted value")>> ELSE <<>>)
@@ -549,7 +560,11 @@ J_C10(S, a, site, inp, S2, o, G, G2) ==
                    THEN <<V("C08", kind, finding, "an upsert acknowledged as accepted was silently lost (swept before its deadline)")>> ELSE <<>>)
          IN
          IF e.id # L.vic.id
-         THEN <<V("C10", "known", "D11", "the sweep of an old key id removed the key's newer incarnation")>>
+         THEN IF Get(G.evw, a, 0) = L.vic.id
+              THEN \* the entry was replaced (delete + re-put applied) inside this eviction's window
+                   <<V("C10", "known", "D11", "the sweep of an old key id removed the key's newer incarnation, stored inside the eviction window")>>
+              ELSE <<V("C10", "violation", "", "the sweep of an old key id removed a newer incarnation of the key (the old id was still charged after the key had been put again)")>>
+                   \o More("violation", "")
          ELSE IF e.exp = NoExp \/ e.exp > L.t
          THEN IF UpsertInFlightOn(S, e.id)
               THEN <<V("C10", "known", "D12", "sweep between an upsert's store update and its index update")>> \o More("known", "D12")
